@@ -7,7 +7,7 @@ from symex import decision_table
 from evalfn import FnModel
 import cfg
 import geometry as G
-from .common import live_calls, is_iter_next, impl_fn, ws_bodies
+from .common import live_calls, is_iter_next, impl_fn, ws_bodies, closure_upvar_terms, is_upvar
 
 LEVEL = "other"
 MG = "weechess_core::movegen::MoveGenerator::"
@@ -184,7 +184,40 @@ def g4_legality_filter(ck):
             a = [tb.operand(x) for x in t["args"]]
             if a[0] == ("field", ("param", 2), "legal_moves"):
                 pushes.append((bb, t, a))
-    ck.floor("G4", len(pushes), 1, "pushes into the legal move buffer")
+    # second accepted form: buffer.legal_moves.extend(candidates.iter().filter_map(|m| m.try_as_legal_move(state)))
+    ext_form = False
+    if not pushes:
+        exts = []
+        for bb, t in live_calls(b):
+            if callee_name(t).endswith("::extend") and len(t["args"]) == 2:
+                a = [tb.operand(x) for x in t["args"]]
+                if a[0] == ("field", ("param", 2), "legal_moves"):
+                    exts.append((bb, t, a))
+        if len(exts) == 1:
+            bb, t, a = exts[0]
+            src = a[1]
+            fm = src if is_call(src, "Iterator::filter_map") else None
+            good = fm is not None and any(x == ("field", ("param", 2), "psuedo_legal_moves") for x in walk(fm[2][0])) \
+                and not any(x[0] == "call" and x[1].split("::")[-1] in ("skip", "take", "step_by", "filter", "skip_while", "take_while") for x in walk(fm[2][0]))
+            cl_ok = False
+            if good and fm[2][1][0] == "agg" and str(fm[2][1][1]).startswith("closure:"):
+                cname = fm[2][1][1][len("closure:"):]
+                cb = prog.body(cname)
+                crt = return_term(prog, cb) if cb is not None else None
+                ups = closure_upvar_terms(prog, b, cname, tb) or []
+                st_up = [i for i, u in enumerate(ups) if u == ("param", 1)]
+                cl_ok = crt is not None and is_call(crt, TRY) and crt[2][0] == ("param", 2) and any(is_upvar(crt[2][1], i) for i in st_up)
+            ck.req(good and cl_ok, "G4.emit_only_legal", "compute_legal_moves_into", b.where(t["line"]),
+                   "the legal buffer is not extended with exactly filter_map(|m| m.try_as_legal_move(state)) over all of buffer.psuedo_legal_moves")
+            gen = live_calls(b, names=(MG + "compute_psuedo_legal_moves_into",))
+            goodg = len(gen) == 1
+            if goodg:
+                ga = [tb.operand(x) for x in gen[0][1]["args"]]
+                goodg = ga[0] == ("param", 1) and ga[1] == ("field", ("param", 2), "psuedo_legal_moves") and gen[0][0] in cfg.dominators(b).get(bb, ())
+            ck.req(goodg, "G4.generated_for_state", "compute_legal_moves_into", b.where(), "candidates are not generated for the same state into the iterated buffer")
+            ext_form = True
+    if not ext_form:
+        ck.floor("G4", len(pushes), 1, "pushes into the legal move buffer")
     for bb, t, a in pushes:
         v = a[1]
         good = v[0] == "field" and v[1][0] == "variant" and v[1][2] == "Some" and is_call(v[1][1], TRY) and v[1][1][2][1] == ("param", 1)
@@ -193,8 +226,8 @@ def g4_legality_filter(ck):
     # (b) every candidate of the loop reaches try_as_legal_move
     heads = [(bb, t) for bb, t in live_calls(b) if is_iter_next(callee_name(t))]
     tries = [bb for bb, t in live_calls(b, names=(TRY,))]
-    ck.req(len(heads) == 1 and len(tries) == 1, "G4.loop", "compute_legal_moves_into", b.where(), "expected one candidate loop and one try_as_legal_move call (%d / %d)" % (len(heads), len(tries)))
-    if len(heads) == 1 and len(tries) == 1:
+    ck.req(ext_form or (len(heads) == 1 and len(tries) == 1), "G4.loop", "compute_legal_moves_into", b.where(), "expected one candidate loop and one try_as_legal_move call (%d / %d)" % (len(heads), len(tries)))
+    if not ext_form and len(heads) == 1 and len(tries) == 1:
         hb = heads[0][0]
         sw = b.term(heads[0][1]["target"])
         some_target = [c[1] for c in sw["cases"] if c[0] == 1]
@@ -223,7 +256,7 @@ def g4_legality_filter(ck):
         good_payload = mr[0] == "agg" and mr[1].endswith("MoveResult::MoveResult") and mr[2][0] == ("field", ("param", 1), "0")
         if good_payload:
             nxt = mr[2][1]
-            good_payload = is_call(nxt, "Result::<T, E>::unwrap") and is_call(nxt[2][0], STATE + "by_performing_move") and nxt[2][0][2] == (("param", 2), ("field", ("param", 1), "0"))
+            good_payload = (is_call(nxt, "Result::<T, E>::unwrap") or is_call(nxt, "Result::<T, E>::expect")) and is_call(nxt[2][0], STATE + "by_performing_move") and nxt[2][0][2] == (("param", 2), ("field", ("param", 1), "0"))
         ck.req(good_payload, "G4.payload", "try_as_legal_move", tr.where(), "the legal result is not MoveResult(self.0, by_performing_move(state, self.0)): %s" % show(mr)[:200])
         guard = None
         for c, taken in p.conds:
